@@ -108,13 +108,23 @@ def non_increasing(v):
 # data
 # --------------------------------------------------------------------------
 
-def dense(t_list, X):
+def dense(t_list, X, layout="C"):
+    """Dense functional data; `layout` chooses the memory layout of the values handed to FDApy:
+    "C" (contiguous), "F" (Fortran order) or "S" (a strided, non-contiguous view)."""
     from FDApy.representation.argvals import DenseArgvals
     from FDApy.representation.functional_data import DenseFunctionalData
     from FDApy.representation.values import DenseValues
 
     arg = DenseArgvals({f"input_dim_{k}": np.array(fl([F(x) for x in t])) for k, t in enumerate(t_list)})
-    return DenseFunctionalData(arg, DenseValues(np.array(X, dtype=float)))
+    V = np.array(X, dtype=float)
+    if layout == "F":
+        V = np.asfortranarray(V)
+    elif layout == "S":
+        big = np.zeros(tuple(2 * d for d in V.shape))
+        view = big[tuple(slice(None, None, 2) for _ in V.shape)]
+        view[...] = V
+        V = view
+    return DenseFunctionalData(arg, DenseValues(V))
 
 
 def grid(rng: Rng, m, uniform=None):
@@ -195,8 +205,8 @@ def multi_lowrank(rng: Rng, P, n, R=3):
 
 
 def pow2(rng: Rng, wide=True):
-    """A power-of-two data scale (exact in float64 and in ℚ): mostly 1, sometimes 2^±10 … 2^±20 (≈ 1e-6 … 1e6)."""
-    return Fraction(2) ** rng.choice([0, 0, 0, -20, -10, 10, 20] if wide else [0])
+    """A power-of-two data scale (exact in float64 and in ℚ): mostly 1, sometimes 2^±10 … 2^±30 (≈ 1e-9 … 1e9)."""
+    return Fraction(2) ** rng.choice([0, 0, 0, -30, -20, -10, 10, 20, 30] if wide else [0])
 
 
 def S(x):
